@@ -422,6 +422,48 @@ async fn get_multiple_cids_from_store<const S: usize, B: Blockstore>(
     results
 }
 
+#[cfg(beetswap_verif)]
+#[derive(Debug, Default)]
+pub(crate) struct VerifPeerWantlist<const S: usize>(PeerWantlist<S>);
+
+#[cfg(beetswap_verif)]
+impl<const S: usize> VerifPeerWantlist<S> {
+    pub(crate) fn process(
+        &mut self,
+        wantlist: ProtoWantlist,
+    ) -> (Vec<CidGeneric<S>>, Vec<CidGeneric<S>>) {
+        self.0.process_wantlist(wantlist)
+    }
+
+    pub(crate) fn cids(&self) -> Vec<CidGeneric<S>> {
+        self.0 .0.iter().copied().collect()
+    }
+}
+
+#[cfg(beetswap_verif)]
+impl<const S: usize, B> ServerBehaviour<S, B>
+where
+    B: Blockstore + 'static,
+{
+    pub(crate) fn verif_snapshot(&self) -> crate::verif::ServerSnapshot<S> {
+        crate::verif::ServerSnapshot {
+            peers_wantlists: self
+                .peers_wantlists
+                .iter()
+                .map(|(p, w)| (*p, w.0.iter().copied().collect()))
+                .collect(),
+            peers_waiting_for_cid: self
+                .peers_waiting_for_cid
+                .iter()
+                .map(|(c, ps)| (*c, ps.iter().map(|p| **p).collect()))
+                .collect(),
+            outgoing_queue: self.outgoing_queue.iter().map(|(c, _)| *c).collect(),
+            outgoing_event_queue: self.outgoing_event_queue.len(),
+            tasks: self.tasks.len(),
+        }
+    }
+}
+
 #[cfg(test)]
 mod tests {
     use super::*;
